@@ -28,6 +28,10 @@ func envOr(k, d string) string {
 	return d
 }
 
+// outRoot is where evidence and replay files go: /verif, unless a run against a stand-in tree
+// (seeded-change testing, VERIF_OUT_DIR) must not overwrite the evidence of the real tree.
+func outRoot() string { return envOr("VERIF_OUT_DIR", Root) }
+
 // Known is one line of KNOWN_FINDINGS.txt.
 type Known struct {
 	Property string
@@ -262,7 +266,7 @@ func (r *Run) Finish() int {
 		if over {
 			rep["note"] = fmt.Sprintf("signature is a known finding but %d cases fail where at most %d are recorded: new inputs reach a known defect", g.Count, k.Max[r.Tier])
 		}
-		dir := filepath.Join(Root, "replays", r.ID)
+		dir := filepath.Join(outRoot(), "replays", r.ID)
 		os.MkdirAll(dir, 0o755)
 		path := filepath.Join(dir, digest([]any{s, g.First})+".json")
 		b, _ := json.MarshalIndent(rep, "", " ")
@@ -325,9 +329,9 @@ func (r *Run) Finish() int {
 		"coverage": cov, "assumptions": r.assumptions,
 		"wall_s": float64(time.Since(r.Start).Milliseconds()) / 1000, "violations": nNew,
 	}
-	os.MkdirAll(filepath.Join(Root, "evidence"), 0o755)
+	os.MkdirAll(filepath.Join(outRoot(), "evidence"), 0o755)
 	b, _ := json.MarshalIndent(evd, "", " ")
-	if err := os.WriteFile(filepath.Join(Root, "evidence", r.ID+".json"), b, 0o644); err != nil {
+	if err := os.WriteFile(filepath.Join(outRoot(), "evidence", r.ID+".json"), b, 0o644); err != nil {
 		fmt.Fprintln(os.Stderr, "cannot write evidence:", err)
 		if exit == 0 {
 			exit = 3
